@@ -297,33 +297,40 @@ def run(ctx):
         rm = df.call_sites('std::fs::remove_file')
         ctx.ob('4d removal-anchors', 'anchor', df.path, 'one remove_file site, fed by the collected list', len(rm) == 1 and len(pushes) == 1, '')
     # file-name formats (writers) and membership predicates (whatever drop_files / deplace_column call)
+    # (a name may be put together through a helper that formats the part all files of a column share: templates are expanded)
     writers = {}
     for mod in ('index::TableId', 'table::TableId', 'ref_count::RefCountTableId'):
         wb = F.body(mod + '::file_name')
         if wb is None:
             ctx.ob('4e name-format-anchor %s' % mod, 'anchor', mod, 'file_name exists', False, '')
             continue
-        for bi, tk, raw in lib.fmt_templates(wb):
+        for bi, tk in lib.expanded_templates(F, wb):
             if tk and tk[0][0] == 'lit':
-                writers[tk[0][1]] = (mod, tk, raw)
+                # the kind is the literal up to and including its first "_"
+                kind = tk[0][1]
+                writers[kind] = (mod, tk, kind)
     ctx.ob('4f kinds-distinct', 'K8-table', '-', 'the three file kinds use distinct, non-prefixing name prefixes', len(writers) == 3 and not any(x != y and x.startswith(y) for x in writers for y in writers), str(sorted(writers)))
     colsig = set(w[1][1] for w in writers.values() if len(w[1]) > 1 and w[1][1][0] == 'arg')
     ctx.ob('4e0 column-placeholder', 'anchor', '-', 'the three file-name formats print the column with one common placeholder format, followed by "_"',
            len(colsig) == 1 and all(len(w[1]) > 2 and w[1][2][0] == 'lit' and w[1][2][1].startswith('_') for w in writers.values()), str(colsig))
+    TESTS = ['re:str>?::starts_with', 're:str>?::strip_prefix', 're:str>?::contains', 're:str>?::ends_with']
     for user in ('column::Column::drop_files', 'migration::deplace_column'):
         ub = F.body(user)
         if ub is None:
             continue
         kinds_seen = set()
         ntpl = 0
-        for c in sorted(F.transitive_callees([user])):
+        for c in sorted(set(F.transitive_callees([user])) | {user}):
             cb = F.body(c)
             if cb is None:
                 continue
             for bi2, sc in lib.str_consts(cb):
                 if sc in ('index', 'table', 'refcount'):
                     kinds_seen.add(sc + '_')
-            for bi2, tk, raw in lib.fmt_templates(cb):
+            for bi2, t2 in cb.calls():
+                if bi2 not in cb.normal_blocks() or not call_matches(t2, TESTS) or len(t2['a']) < 2:
+                    continue
+                tk = lib.string_tokens(F, cb, t2['a'][1])
                 if not tk:
                     continue
                 if tk[0][0] == 'lit' and tk[0][1] in writers:
@@ -335,7 +342,7 @@ def run(ctx):
                         ok = nxt is not None and nxt[0] == 'lit' and nxt[1].startswith('_')
                         ctx.ob('4e column-number-delimited %s in %s' % (user.split('::')[-1], c), 'K8-table', c,
                                'wherever the column number is formatted for a file-name test it is closed by the "_" separator (else column 1 matches 10..19 and column 10 matches 100..109)',
-                               ok, 'template %r' % raw)
+                               ok, 'the tested name reads %r' % (tk,))
         ctx.ob('4e1 column-format-used %s' % user, 'anchor', user, 'the membership test formats the column number with the file-name placeholder', ntpl >= 1, '%d templates' % ntpl)
         ctx.ob('4e2 all-kinds-tested %s' % user, 'K9-agreement', user, 'the membership test of %s names the three file kinds of a column' % user.split('::')[-1], kinds_seen >= set(writers), 'kinds: %s' % sorted(kinds_seen))
     # every entry that deletes or rewrites opens the database first
